@@ -602,3 +602,196 @@ pub fn rule_text(which: &str, tier: Tier, n: usize) -> String {
         T_MS, fam, n, if tier == Tier::Thorough { "4 chess / 3 chess / 3 strict (for <= 2 / 3 / more threads sharing the queue)" } else { "2 chess / 2 strict (for <= 3 / more threads sharing the queue)" }
     )
 }
+
+// ------------------------------------------------------------------------- sequential family
+//
+// Every sequence of queue operations up to a depth, executed by ONE thread (so the state
+// before and after every call is known exactly through verif_snapshot), judged by what
+// the statement of C17 pins down:
+//   * a receive call that returns empty-handed while a request is queued must have
+//     consumed exactly one unblock token (nothing else justifies withholding a request);
+//   * a receive call that returns a request consumed no token, and requests come out in
+//     the order they were pushed, each exactly once;
+//   * unblock adds one token, push adds one request; nothing else changes the counts;
+//   * try_pop never enters a wait; pop_timeout on an empty queue takes >= T - 1 ms.
+// Where tokens sit relative to queued requests is NOT pinned down (not in the statement).
+
+#[derive(Clone, Copy, Debug, PartialEq, Eq)]
+pub enum SeqOp {
+    Push,
+    Unblock,
+    TryPop,
+    PopTimeout,
+    /// only generated when something is queued (it would block for ever otherwise)
+    Pop,
+}
+
+pub fn seq_ops_from_index(mut idx: u64, depth: usize) -> Vec<SeqOp> {
+    let all = [SeqOp::Push, SeqOp::Unblock, SeqOp::TryPop, SeqOp::PopTimeout, SeqOp::Pop];
+    let mut v = Vec::new();
+    for _ in 0..depth {
+        v.push(all[(idx % 5) as usize]);
+        idx /= 5;
+    }
+    v
+}
+
+#[derive(Clone, Debug, Default)]
+pub struct SeqObs {
+    /// (operation, snapshot before, returned, snapshot after, virtual ns taken, waits entered)
+    pub steps: Vec<(String, (usize, usize), Option<Option<u32>>, (usize, usize), u64, u64)>,
+    pub skipped_blocking_pop: bool,
+}
+
+pub fn seq_body(ops: Vec<SeqOp>, obs: Arc<Mutex<SeqObs>>) {
+    let q: Arc<MessagesQueue<u32>> = MessagesQueue::with_capacity(8);
+    let mut next = 1u32;
+    for op in ops {
+        let before = q.verif_snapshot();
+        let t0 = ctl::clock_ns();
+        let w0 = ctl::my_blocking_ops();
+        let ret: Option<Option<u32>> = match op {
+            SeqOp::Push => {
+                q.push(next);
+                next += 1;
+                None
+            }
+            SeqOp::Unblock => {
+                q.unblock();
+                None
+            }
+            SeqOp::TryPop => Some(q.try_pop()),
+            SeqOp::PopTimeout => Some(q.pop_timeout(Duration::from_millis(T_MS))),
+            SeqOp::Pop => {
+                if before.0 + before.1 == 0 {
+                    obs.lock().unwrap().skipped_blocking_pop = true;
+                    continue;
+                }
+                Some(q.pop())
+            }
+        };
+        let after = q.verif_snapshot();
+        obs.lock().unwrap().steps.push((format!("{:?}", op), before, ret, after, ctl::clock_ns() - t0, ctl::my_blocking_ops() - w0));
+    }
+}
+
+pub fn seq_judge(o: &SeqObs, res: &RunResult) -> Vec<(String, String)> {
+    let mut f = Vec::new();
+    for p in &res.panics {
+        f.push(("panic".to_string(), format!("{} at {}", p.message, p.location)));
+    }
+    if res.end != End::Clean {
+        f.push(("hang".into(), format!("sequential program did not finish: {:?} {:?}", res.end, res.blocked)));
+        return f;
+    }
+    let mut expect_next = 1u32;
+    for (i, (op, b, ret, a, took, waits)) in o.steps.iter().enumerate() {
+        let ctx = format!("step {} {} with (requests, tokens) {:?} -> {:?}, returned {:?}", i, op, b, a, ret);
+        match (op.as_str(), ret) {
+            ("Push", _) => {
+                if *a != (b.0 + 1, b.1) {
+                    f.push(("sequential:push".into(), ctx.clone()));
+                }
+            }
+            ("Unblock", _) => {
+                if *a != (b.0, b.1 + 1) {
+                    f.push(("sequential:unblock-token-count".into(), ctx.clone()));
+                }
+            }
+            (_, Some(Some(v))) => {
+                if *a != (b.0.wrapping_sub(1), b.1) || b.0 == 0 {
+                    f.push(("sequential:request-return-changes-tokens".into(), ctx.clone()));
+                }
+                if *v != expect_next {
+                    f.push(("sequential:request-order".into(), format!("{}; expected request {}", ctx, expect_next)));
+                }
+                expect_next = *v + 1;
+            }
+            (_, Some(None)) => {
+                if b.0 > 0 && !(a.1 + 1 == b.1 && a.0 == b.0) {
+                    f.push((
+                        "sequential:empty-handed-although-request-queued".into(),
+                        format!("{}: a receive call may only return without a request while one is queued if it consumes an unblock", ctx),
+                    ));
+                }
+                if b.0 == 0 && !(a.0 == 0 && (a.1 == b.1 || a.1 + 1 == b.1)) {
+                    f.push(("sequential:token-count".into(), ctx.clone()));
+                }
+                if op == "Pop" && a.1 + 1 != b.1 {
+                    f.push(("sequential:recv-error-without-unblock".into(), ctx.clone()));
+                }
+                if op == "PopTimeout" && a.1 == b.1 && *took < T_NS - 1_000_000 {
+                    f.push(("sequential:recv-timeout-too-early".into(), format!("{}; took {} ns", ctx, took)));
+                }
+                if op == "PopTimeout" && *took > 2 * T_NS {
+                    f.push(("sequential:recv-timeout-too-late".into(), format!("{}; took {} ns", ctx, took)));
+                }
+            }
+            _ => (),
+        }
+        if op == "TryPop" && *waits > 0 {
+            f.push(("sequential:try-recv-blocked".into(), ctx.clone()));
+        }
+    }
+    f
+}
+
+pub const SEQ_DEPTH_QUICK: usize = 5;
+pub const SEQ_DEPTH_THOROUGH: usize = 7;
+
+pub fn seq_items(tier: Tier) -> u64 {
+    // one work item = 25 sequences (the two slowest-varying operations fixed)
+    let d = if tier == Tier::Thorough { SEQ_DEPTH_THOROUGH } else { SEQ_DEPTH_QUICK };
+    5u64.pow(d as u32) / 25
+}
+
+pub fn seq_run_item(item: u64, tier: Tier, acc: &mut Acc) {
+    let d = if tier == Tier::Thorough { SEQ_DEPTH_THOROUGH } else { SEQ_DEPTH_QUICK };
+    for k in 0..25u64 {
+        let idx = item * 25 + k;
+        let ops = seq_ops_from_index(idx, d);
+        let o: Arc<Mutex<SeqObs>> = Arc::new(Mutex::new(SeqObs::default()));
+        let (o2, ops2) = (o.clone(), ops.clone());
+        let res = ctl::run(&tiny_http::verif_rt::core::RunCfg::default(), move || seq_body(ops2, o2));
+        let ob = o.lock().unwrap().clone();
+        acc.evals += 1;
+        acc.execs += 1;
+        acc.points += res.points;
+        acc.decisions += res.decisions.len() as u64;
+        acc.leaked_threads += res.leaked_threads as u64;
+        acc.nontrivial += 1;
+        acc.count("sequential_programs", 1);
+        acc.outcomes.insert(hash_str(&format!("{:?}", ob.steps.iter().map(|s| (s.0.clone(), s.2, s.3)).collect::<Vec<_>>())));
+        let mut seen = std::collections::BTreeSet::new();
+        for (key, desc) in seq_judge(&ob, &res) {
+            if seen.insert(key.clone()) {
+                acc.violation(&key, desc, json!({"sequential_ops": ops.iter().map(|x| format!("{:?}", x)).collect::<Vec<_>>()}));
+            }
+        }
+    }
+}
+
+pub fn seq_replay(replay: &Value, acc: &mut Acc) {
+    let ops: Vec<SeqOp> = replay["sequential_ops"]
+        .as_array()
+        .map(|a| {
+            a.iter()
+                .map(|x| match x.as_str().unwrap_or("") {
+                    "Push" => SeqOp::Push,
+                    "Unblock" => SeqOp::Unblock,
+                    "TryPop" => SeqOp::TryPop,
+                    "PopTimeout" => SeqOp::PopTimeout,
+                    _ => SeqOp::Pop,
+                })
+                .collect()
+        })
+        .unwrap_or_default();
+    let o: Arc<Mutex<SeqObs>> = Arc::new(Mutex::new(SeqObs::default()));
+    let (o2, ops2) = (o.clone(), ops.clone());
+    let res = ctl::run(&tiny_http::verif_rt::core::RunCfg { trace: true, ..Default::default() }, move || seq_body(ops2, o2));
+    let ob = o.lock().unwrap().clone();
+    acc.notes.insert(format!("{}\n{:#?}", res.trace.join("\n"), ob));
+    for (key, desc) in seq_judge(&ob, &res) {
+        acc.violation(&key, desc, replay.clone());
+    }
+}
